@@ -457,6 +457,12 @@ func (e *env) key() string {
 				d = fmt.Sprintf("trim@%v", e.clk.Sub(time.Unix(t, 0)))
 			}
 		}
+		if f.Rel == "trim.txt" {
+			// its modification time is the real time of the write (nothing sets or
+			// reads it): not part of the state
+			fmt.Fprintf(&sb, "%s=%q;", f.Rel, d)
+			continue
+		}
 		fmt.Fprintf(&sb, "%s=%q@%v;", f.Rel, maskEntryTime(f.Rel, d), e.clk.Sub(f.Mtime))
 	}
 	var lu []string
@@ -811,7 +817,7 @@ func main() {
 	reduced := []int{-1, 3, 5, 8, 11}
 	if r.Thorough() {
 		bfs("all 13 deltas", full, 3)
-		bfs("5 boundary deltas", reduced, 4)
+		bfs("5 boundary deltas", reduced, 5)
 	} else {
 		bfs("all 13 deltas", full, 2)
 		bfs("5 boundary deltas", reduced, 3)
